@@ -283,10 +283,14 @@ func checkC16(c *Ctx, r *Report) {
 	r5 := r.Rule("C16-R5", "E1/E4", 8, "rate limiter: state updates only past the caps; CompleteRequest deferred on every accepted request; fields under mu")
 	rlT := an2 + ".rateLimiter"
 	if acc := r5.need(acceptK); acc != nil {
+		isInProgIncr := func(in ssa.Instruction) bool {
+			_, isMU := in.(*ssa.MapUpdate)
+			return isMU && isFieldWrite(in, rlT+".inProgressReqs")
+		}
 		writes := findInstrs(acc, func(in ssa.Instruction) bool {
 			// the admission: directly, or in a helper that counts the request as in progress
 			return isFieldWrite(in, rlT+".inProgressReqs") || isFieldWrite(in, rlT+".reqs") || isFieldWrite(in, rlT+".peerReqs") ||
-				writesLike(in, fieldWritePred(rlT+".inProgressReqs"), 2)
+				writesLike(in, isInProgIncr, 2)
 		})
 		lenOf := func(field string) func(ssa.Value) bool {
 			return func(v ssa.Value) bool {
@@ -311,7 +315,7 @@ func checkC16(c *Ctx, r *Report) {
 		for _, ret := range returnsOf(acc) {
 			if b, ok := constBool(retVal(ret, 0)); ok && b {
 				w, n := (&Cut{Fn: acc, Target: func(in ssa.Instruction) bool { return in == ssa.Instruction(ret) },
-					Sep: func(in ssa.Instruction) bool { return passesLike(in, fieldWritePred(rlT+".inProgressReqs"), 2) }}).Run(c)
+					Sep: func(in ssa.Instruction) bool { return passesLike(in, isInProgIncr, 2) }}).Run(c)
 				r5.Check(w == "", acceptK+": return true passes inProgressReqs[p]++", instrPos(ret), n+1, "", "accepts without recording the request", w)
 			}
 		}
